@@ -129,6 +129,13 @@ def _quadratic_ok(vals, mag):
     return True
 
 
+def _bucket(dev):
+    for b, name in ((0.05, "dev<5%"), (0.5, "dev<50%"), (5.0, "dev<500%")):
+        if dev < b:
+            return name
+    return "dev>=500%"
+
+
 def chord_check(ctx, model, names, label_path, ys_by_d, data):
     """ys_by_d: dict d -> list of contribution values (or None if not evaluated)"""
     lo, hi = ys_by_d.get(-1e-3), ys_by_d.get(1e-3)
@@ -164,19 +171,24 @@ def chord_check(ctx, model, names, label_path, ys_by_d, data):
             ctx.add("paths_skipped_abs_value_kink")
             continue
         ctx.nontrivial((model, cn, label_path.split(":")[-1]))
+        worst, worst_d, worst_line = 0.0, None, None
         for d, y in sorted(vals.items()):
             if y is None or not math.isfinite(y) or abs(d) >= 1e-3:
                 continue
             line = ym + (yp - ym) * (d + 1e-3) / 2e-3
-            if abs(y - line) > 0.01 * mag:
-                if _quadratic_ok(vals, mag):
-                    ctx.add("paths_off_chord_but_smooth_parabola")     # steep smooth dependence, no singularity
-                    break
-                failed.add(cn)
-                if not explained:
-                    ctx.fail("%s.%s:%s" % (model, cn, label_path), "%s %s = %.6e at d = %g leaves the 1%% band around the chord (%.6e) through d = -+1e-3 (%.6e, %.6e) and is not on a smooth parabola, path %s"
-                             % (model, cn, y, d, line, ym, yp, label_path), dict(data, d=d, contribution=cn), max_per_key=1)
-                break
+            dev = abs(y - line) / mag
+            if dev > worst:
+                worst, worst_d, worst_line = dev, d, line
+        if worst > 0.01:
+            if _quadratic_ok(vals, mag):
+                ctx.add("paths_off_chord_but_smooth_parabola")     # steep smooth dependence, no singularity
+                continue
+            failed.add(cn)
+            if not explained:
+                # the size class of the deviation is part of the key: a known finding covers only its own class
+                ctx.fail("%s.%s:%s:%s" % (model, cn, label_path, _bucket(worst)),
+                         "%s %s = %.6e at d = %g leaves the 1%% band around the chord (%.6e) through d = -+1e-3 (%.6e, %.6e) by %.3g of the magnitude and is not on a smooth parabola, path %s"
+                         % (model, cn, vals[worst_d], worst_d, worst_line, ym, yp, worst, label_path), dict(data, d=worst_d, contribution=cn), max_per_key=1)
     return len(failed)
 
 
@@ -426,7 +438,7 @@ def run(ctx):
                         jumped.add(cn)
                         if any(pn in jumped for pn in DERIVED[model].get(cn, [])):
                             continue
-                        ctx.fail("%s.%s:%s=%s:jump%s" % (model, cn, mov, where, ":massless-sfermion" if (a in massless or bb in massless) else ""),
+                        ctx.fail("%s.%s:%s=%s:jump:%s%s" % (model, cn, mov, where, _bucket(abs(ya - yb) / max(abs(ya), abs(yb))).replace("dev", "step"), ":massless-sfermion" if (a in massless or bb in massless) else ""),
                                  "%s %s jumps from %.6e to %.6e between the adjacent doubles %s = %r | %r (base %s, type %s)" % (model, cn, ya, yb, mov, a, bb, b, t),
                                  {"model": model, "base": b, "ytype": t, "moving": mov, "a": hexf(a), "b": hexf(bb)}, max_per_key=1)
     ctx.evals(ncases)
